@@ -112,7 +112,7 @@ def runOp (cfg : Config) (H : HashFn) (op : String) (a : List (String × String)
   | "frombytes" => do
     let b ← argBytes a "bytes"
     let ok ← match arg a "kind" with
-      | some "sig" => some (decide (b.length ≤ cfg.maxHssSigLen))
+      | some "sig" => some (decide (b.length ≤ cfg.maxHssSigLen ∧ b.length ≤ 65535))
       | some "vsig" => some true
       | some "vk" => some (decide (b.length ≤ Config.maxHssPkLen))
       | some "sk" => some (decide (b.length ≤ Config.maxPrivKeyLen))
